@@ -629,7 +629,8 @@ def run(ctx):
                               ('Gen_Group.v', sel2coq.translate_group, 'HashSorter::pvGroup'),
                               ('Gen_Searches.v', sel2coq.translate_searches, 'pvBinarySearch, pvExponentialSearch'),
                               ('Gen_GroupLambda.v', sel2coq.translate_group_lambda, 'group callback of HashSorter::pvSort'),
-                              ('Gen_IsSorted.v', sel2coq.translate_issorted, 'pvIsGrouped, pvIsSorted')):
+                              ('Gen_IsSorted.v', sel2coq.translate_issorted, 'pvIsGrouped, pvIsSorted'),
+                              ('Gen_FindNext.v', sel2coq.translate_findnext, 'pvFindNext (forward iterators)')):
         gpath = os.path.join(ctx.cdir, gname)
         try:
             txt = gfun(repo=ctx.repo)
